@@ -1,5 +1,5 @@
 (* Model/C16Run.v - case type and checker evaluated on harness-generated cases (C16) *)
-From ReqV Require Export Lib.Bytes Model.HeaderOrder Model.HeaderCollect Model.HeaderMerge Model.HeaderSeq Model.HeaderResend Model.HeaderFrag Model.HeaderRedirect.
+From ReqV Require Export Lib.Bytes Model.HeaderOrder Model.HeaderCollect Model.HeaderMerge Model.HeaderSeq Model.HeaderResend Model.HeaderFrag Model.HeaderRedirect Model.HeaderKeepAlive.
 
 Inductive seq_outcome :=
 | SSent (obs : list line)    (* the origin's view of that request *)
@@ -37,7 +37,10 @@ Inductive c16_case :=
 (* a hop after a redirect: the initial request's header map at the transport, the names given to
    AlwaysCopyHeaderRedirectPolicy, whether the chain has left the initial domain, and the hop's
    header map at the transport (sorted by key, the Referer net/http adds aside) *)
-| RedirCase (initial : list kv) (names : list bytes) (strip : bool) (hop : list kv).
+| RedirCase (initial : list kv) (names : list bytes) (strip : bool) (hop : list kv)
+(* an HTTP/1.1 request through a client with keep-alives disabled: like WireCase 1, the transport's own
+   Connection: close included *)
+| WireKACase (q : creq) (obs : list line).
 
 Fixpoint ascending (l : list nat) : bool :=
   match l with
@@ -101,6 +104,9 @@ Definition c16_check (c : c16_case) : bool :=
          hop: values are compared after sanitising *)
       let san := map (fun x : kv => (fst x, map sanitize (snd x))) in
       list_eqb kv_eqb (san (sort_by_key (hop_hdr initial names strip))) (san hop)
+  | WireKACase q obs =>
+      let order := order_list (c_hdr q) in
+      regular_check order (is_nil order) false (h1_lines_ka true q) obs
   | ResendCase steps => resend_check [] steps
   | FragCase prio max len frames =>
       list_eqb (fun a b : N * bool => (fst a =? fst b)%N && Bool.eqb (snd a) (snd b)) (write_headers_len prio max len) frames
